@@ -96,7 +96,7 @@ func isUnsafePointer(t types.Type) bool {
 func checkC08(w *World, c *Check, tier string) {
 	c.Level = "other"
 	c.Exhaustive = true
-	c.Explanation = "Decides, for every pointer reinterpretation through unsafe.Pointer in the package (found on the SSA form, by type), that the destination struct is no larger than the source and is a field-by-field layout prefix of it (offset, type, jsonld term, name — Items/OrderedItems being the one renaming the statement allows) on every gc architecture, and that package unsafe is used for nothing else. This is the whole static obligation of the property: a narrowing prefix-compatible pointer conversion aliases the original (writes visible), reads shared fields identically and cannot reach outside the value. Not decided: behaviour of the reflect.ConvertibleTo fallback beyond its use of identical underlying types."
+	c.Explanation = "Decides, for every pointer reinterpretation through unsafe.Pointer in the package (found on the SSA form, by type), that the destination struct is no larger than the source and is a field-by-field layout prefix of it (offset, type, jsonld term, name — Items/OrderedItems being the one renaming the statement allows) on every gc architecture, and that package unsafe is used for nothing else. This is the whole static obligation of the property: a narrowing prefix-compatible pointer conversion aliases the original (writes visible), reads shared fields identically and cannot reach outside the value. Not decided: behaviour of the reflect.ConvertibleTo fallback beyond its use of identical underlying types. (on) an On* helper reports success only after it has handed the operand to its callback, or for a nil operand."
 	c.RuleText = "one obligation per cast site per rule (narrow, prefix) evaluated on all gc architectures; exhaustive over sites"
 	c.Trusted = []string{"go/types type checker and types.SizesFor(gc, arch)", "go/ssa builder (x/tools v0.29.0)", "apcheck c08.go"}
 	checkReflectFallback(w, c)
